@@ -165,6 +165,10 @@ class Ctx:
             self.ob(rule, fnname, 'anchor', False, f'anchor lost: {e}', what='a rule matching zero sites would pass vacuously; failing closed')
         except mirlib.PathBudget as e:
             self.ob(rule, fnname, 'path-budget', False, f'path budget exceeded in {e}')
+        except Exception as e:  # an unexpected code shape the rule cannot read: fail closed, naming the rule, instead of crashing the check
+            tb = traceback.extract_tb(e.__traceback__)[-1]
+            self.ob(rule, fnname, 'anchor', False, f'anchor lost: the rule could not read the code it is anchored on ({type(e).__name__}: {e} at {os.path.basename(tb.filename)}:{tb.lineno})',
+                    what='a rule that cannot read its anchor passes vacuously if ignored; failing closed')
 
 
 def short_fn(name):
